@@ -322,6 +322,14 @@ def _callers_closure(b: ClassInfo, name: str) -> Set[str]:
 def _support_rule(ctx, mut: Mutations):
     run, prog = ctx.run, ctx.prog
     build = prog.func('adv_shell', 'Builder.build')
+    # the function on the way from build() that puts the SupportFiles together (build itself, or a helper it delegates to)
+    sf_cls = prog.cls('adv_shell.common', 'SupportFiles')
+    site_fns = [f_ for f_ in [build] + list(ctx.cg.reachable([build]))
+                if any(isinstance(n_, ast.Call) and isinstance(n_.func, (ast.Name, ast.Attribute)) and
+                       prog.resolve_expr_symbol(f_.module, n_.func) is sf_cls for n_ in iter_own_nodes(f_.node))]
+    entry_build = build
+    if site_fns and build not in site_fns:
+        build = site_fns[0]
     env = ctx.cg.env(build)
     calls = []
     for n in iter_own_nodes(build.node):
@@ -349,8 +357,15 @@ def _support_rule(ctx, mut: Mutations):
     for n, c in calls:
         arg = n.args[0] if n.args else next((k.value for k in n.keywords if k.arg == 'ns_prefix'), None)
         a = resolve_arg(arg) if arg is not None else None
-        ok = a is not None and isinstance(a, ast.Attribute) and a.attr == 'support_files_ns_prefix' and \
-            isinstance(a.value, ast.Name) and a.value.id == 'cfg'
+
+        def is_cfg_prefix(x) -> bool:
+            return isinstance(x, ast.Attribute) and x.attr == 'support_files_ns_prefix' and isinstance(x.value, ast.Name) and \
+                x.value.id == 'cfg'
+        ok = a is not None and is_cfg_prefix(a)
+        if not ok and isinstance(a, ast.Name) and a.id in [p_.arg for p_ in build.params()] and a.id not in env._assign_sites:
+            # the helper is handed the prefix: every call of it passes cfg.support_files_ns_prefix
+            sites_ = [(c_, n_) for c_, n_, _k in ctx.cg.callers(build) if isinstance(n_, ast.Call)]
+            ok = bool(sites_) and all(is_cfg_prefix(prog.bind_call(c_.module, n_, build).get(a.id)) for c_, n_ in sites_)
         run.add('C12.support', build.module.name, build.qualname, n, ok,
                 'prefix argument is cfg.support_files_ns_prefix' if ok else
                 f'prefix argument is `{ast.unparse(arg) if arg is not None else "<default>"}`, not the configured '
